@@ -1090,6 +1090,25 @@ impl<P> DerefMut for SqliteZoneHandler<P> {
     }
 }
 
+/// Verification hook (non-default feature `verif-hooks`): a scheduling point. On a multi-thread
+/// runtime another request's task may run between any two awaits of `update()`; a single-thread
+/// simulator only switches tasks where a future returns `Pending`, so the boundaries between the
+/// steps of an update yield once here.
+#[cfg(feature = "verif-hooks")]
+async fn verif_yield() {
+    let mut yielded = false;
+    std::future::poll_fn(|cx| {
+        if yielded {
+            std::task::Poll::Ready(())
+        } else {
+            yielded = true;
+            cx.waker().wake_by_ref();
+            std::task::Poll::Pending
+        }
+    })
+    .await
+}
+
 #[async_trait::async_trait]
 impl<P: RuntimeProvider + Send + Sync> ZoneHandler for SqliteZoneHandler<P> {
     /// What type is this zone
@@ -1130,13 +1149,22 @@ impl<P: RuntimeProvider + Send + Sync> ZoneHandler for SqliteZoneHandler<P> {
                 (_, signer) => signer,
             };
 
+            #[cfg(feature = "verif-hooks")]
+            verif_yield().await;
+
             if let Err(code) = self.verify_prerequisites(_request.prerequisites()).await {
                 return (Err(code), signer);
             }
 
+            #[cfg(feature = "verif-hooks")]
+            verif_yield().await;
+
             if let Err(code) = self.pre_scan(_request.updates()).await {
                 return (Err(code), signer);
             }
+
+            #[cfg(feature = "verif-hooks")]
+            verif_yield().await;
 
             (self.update_records(_request.updates(), true).await, signer)
         }
